@@ -135,7 +135,40 @@ def _defaultdict(factory, *a, **k):
     return collections.defaultdict(f, *a, **k)
 
 
+import pathlib as _pathlib  # noqa: E402
+
+
+class SymPath(_pathlib.PurePosixPath):
+    """pathlib.Path of the analysed program: the PURE part of pathlib (joining, parents, suffixes - no file-system access) computed for real on
+    POSIX semantics, possibly over symbolic tokens; anything that would touch the file system is a hook of the witness or not modelled."""
+
+
+SYMPATH_PROPS = {"parent", "name", "suffix", "suffixes", "stem", "parts", "anchor", "parents", "root", "drive"}
+SYMPATH_PURE = {"joinpath", "with_suffix", "with_name", "with_stem", "is_absolute", "relative_to", "is_relative_to", "match", "as_posix", "is_reserved",
+                "__truediv__", "__rtruediv__", "__str__", "__fspath__", "__eq__", "__ne__", "__hash__", "__lt__", "__le__", "__gt__", "__ge__", "with_segments"}
+
+
+def _sympath(*parts):
+    return SymPath(*[_fspath(x) for x in parts])
+
+
+def _sympath_method(p, name, args, kwargs):
+    """Pure-path methods that need a model: absolute() anchors WITHOUT normalising ('..' stays), resolve() anchors, normalises and follows links."""
+    s = str(p)
+    if name == "absolute":
+        return p if (s.startswith("/") and "⟦" not in s.split("/")[0]) else SymPath(tok("anch:" + s))
+    if name == "resolve":
+        if s.startswith("/") and "⟦" not in s:
+            return SymPath(os.path.normpath(s))
+        return SymPath(tok("abs:" + s))
+    if name == "expanduser":
+        return SymPath(tok("home:" + s)) if s.startswith("~") else p
+    raise Unsupported(f"pathlib method {name} (file-system access) without a hook")
+
+
 def _fspath(p):
+    if isinstance(p, _pathlib.PurePath):
+        return str(p)
     if isinstance(p, Obj):
         try:
             return getattr(p, "__fspath__")
@@ -186,6 +219,8 @@ PURE_EXTERNAL = {
     "fnmatch.translate": lambda pat: __import__("fnmatch").translate(pat),
     "re.escape": re.escape,
     "collections.ChainMap": ChainMap,
+    "pathlib.Path": lambda *a: _sympath(*a), "pathlib.PurePath": lambda *a: _sympath(*a), "pathlib.PosixPath": lambda *a: _sympath(*a),
+    "pathlib.PurePosixPath": lambda *a: _sympath(*a),
     "weakref.WeakKeyDictionary": lambda *a, **k: dict(*a, **k), "weakref.WeakValueDictionary": lambda *a, **k: dict(*a, **k), "weakref.WeakSet": lambda *a: set(*a),
     "textwrap.dedent": lambda t: __import__("textwrap").dedent(t), "textwrap.indent": lambda t, p_, *a: __import__("textwrap").indent(t, p_),
     "inspect.cleandoc": lambda t: __import__("inspect").cleandoc(t),
@@ -778,6 +813,8 @@ class PureInterp:
             if isinstance(op, ast.FloorDiv):
                 return l // r
             if isinstance(op, ast.Div):
+                if isinstance(l, SymPath) or isinstance(r, SymPath):
+                    return SymPath(_fspath(l), _fspath(r))
                 if isinstance(l, str):
                     return _join(l, r)
                 return l / r
@@ -919,6 +956,9 @@ class PureInterp:
                             except CantEval:
                                 return self.eval(value, {}, cls.module)
                 raise Raised("AttributeError", "value")
+        if isinstance(o, SymPath) and n.attr in SYMPATH_PROPS:
+            v = getattr(o, n.attr)
+            return [p_ for p_ in v] if n.attr == "parents" else v
         if isinstance(o, tuple) and len(o) == 4 and o[0] == "memo" and n.attr in ("cache_info", "cache_clear", "__wrapped__", "cache_parameters"):
             if n.attr == "__wrapped__":
                 return o[1]
@@ -1205,6 +1245,13 @@ class PureInterp:
                     except (IndexError, ValueError, TypeError) as exc:
                         raise Raised(type(exc).__name__, str(exc))
                     return list(res) if name in ("items", "keys", "values") else res
+            if isinstance(recv, SymPath):
+                if name in SYMPATH_PURE:
+                    try:
+                        return getattr(recv, name)(*[(_fspath(a) if isinstance(a, (Obj,)) else a) for a in args], **kwargs)
+                    except (TypeError, ValueError) as exc:
+                        raise Raised(type(exc).__name__, str(exc))
+                return _sympath_method(recv, name, args, kwargs)
             if hasattr(recv, "group") and name in ("group", "groups", "start", "end", "span", "groupdict"):
                 return getattr(recv, name)(*args)
             if type(recv).__name__ == "Element" and type(recv).__module__ == "xml.etree.ElementTree" and name in ("iter", "find", "findall", "findtext", "get", "itertext", "getchildren"):
@@ -1300,6 +1347,20 @@ class PureInterp:
                 if kind == "itemgetter":
                     return (lambda o, keys=tuple(args): o[keys[0]] if len(keys) == 1 else tuple(o[k] for k in keys))
                 raise Unsupported("operator.methodcaller")
+            if name in ("attrs.asdict", "attr.asdict", "dataclasses.asdict", "attrs.astuple", "attr.astuple", "dataclasses.astuple") and args and isinstance(args[0], Obj):
+                o0 = args[0]
+                cls0 = o0.__dict__["_attrs"].get("__class__")
+                if isinstance(cls0, ClassInfo) and cls0.fields:
+                    names0 = [f_[0] for f_ in cls0.fields if f_[1] is not None or isinstance(f_[2], ast.Call)]
+                else:
+                    names0 = [k for k in o0.__dict__["_attrs"] if not k.startswith("_") and k != "__class__"]
+                d0 = {}
+                for k in names0:
+                    try:
+                        d0[k.lstrip("_")] = getattr(o0, k)
+                    except AttributeError:
+                        pass
+                return tuple(d0.values()) if name.endswith("astuple") else d0
             if name == "collections.namedtuple":
                 import collections as _c
                 return _c.namedtuple(*args, **kwargs)   # a real tuple type: comparison, unpacking and field access behave as in the program
@@ -1423,6 +1484,8 @@ class PureInterp:
                 real = getattr(_abc, nm.rsplit(".", 1)[1], None)
             elif nm in ("os.PathLike",):
                 real = _os.PathLike
+            elif nm in ("pathlib.Path", "pathlib.PurePath", "pathlib.PosixPath", "pathlib.PurePosixPath"):
+                real = _pathlib.PurePath
             if isinstance(real, type) and not isinstance(v, (Obj, EnumVal)):
                 if isinstance(v, real):
                     return True
